@@ -1346,6 +1346,10 @@ TIE = [
      r"std::vector < Rep > roots;\s*Rep (tmp);[\s\S]*?this->sqrootmodpoweroftwo \((\w+), a, \*Le_iter, \*Pe_iter\)\);[\s\S]*?this->sqrootmodprimepower \((\w+), a, \*Lf_iter, \*Le_iter, \*Pe_iter\)\);\s*\}\s*if \((\w+) == -1\) return x = -1;[\s\S]*?RNs\.RnsToRing \((x), roots\);",
      r"match r, roots_of (a) tl draws with",
      lambda g: ("a",) if g[:4] == ("tmp", "tmp", "tmp", "tmp") and g[4] == "x" else ("the output is used as scratch",) + g),
+    ("lambda / prim_elem (01ad5d5): nilpotent components contribute the tail e-1, the others the lcm of lambda_inv_primpow; strict improvement", NT_INL,
+     r"if \(\(mask >> i\) & 1U\) \{ if \(Le\[i\]-(\d+) > tail\) tail = Le\[i\]-(\d+); \}\s*else this->lcmin\(cyc, (lambda_inv_primpow)\(tmp, Lp\[i\], Le\[i\]\)\);\s*\}\s*cyc \+= tail;\s*if \(cyc (>) z\) z = cyc;",
+     r"if Z\.odd mask then \(Z\.max tail \(e - (\d+)\), cyc\) else \(tail, Z\.lcm cyc \((lambda_inv_primpow) p e\)\)[\s\S]*?let cand := cyc \+ tail in\s+if best (<\?) cand",
+     lambda g: (g[0], g[2], "<?" if g[3] == ">" else g[3]) if g[0] == g[1] else ("mismatch",) + g),
     ("Brillhart: fold x into [0, p/2], loop bound", SQ_INL, r"b=x>\(p>>(\d+)\)\?p-x:x;[\s\S]*?if \(! this->isOne\(a\)\) \{\s*while\(a>s\)", r"let b := if p / (\d+) <\? x then p - x else x in\s+let a := p mod b in\s+if a =\? 1 then Some \(a, b\) else", lambda g: (2 ** g[0],)),
 ]
 
